@@ -34,6 +34,13 @@ def run(tier, seed, replay=None):
     qtt_cases, qtt_want, n_qtt_coq = [], [], 0
     n_sched_blind = 0
     op_cases, op_want, n_op_coq = [], [], 0
+    def rescale(t):
+        """the contract is relative to the norm: every fourth operand is of tiny / huge magnitude (scale carried by one core)"""
+        if rng.random() < 0.25:
+            sc = rng.choice([1e-9, 1e-14, 1e-30, 1e10]); k_ = rng.randrange(len(t.cores))
+            dist["scaled operand"] = dist.get("scaled operand", 0) + 1
+            return torchtt.TT([c * (sc if j_ == k_ else 1.0) for j_, c in enumerate(t.cores)])
+        return t
     for i in range(n):
         kind = rng.choice(["reshape", "reshape", "reshape-op", "permute", "permute", "permute-op", "qtt", "qtt-roundtrip"])
         if i < 14: kind = "reshape"            # the engineered reshape cases below
@@ -50,6 +57,7 @@ def run(tier, seed, replay=None):
                     Nin, Nout = rng.choice([([2, 3, 1, 1], [3, 2]), ([2, 3, 1, 1], [6]), ([4, 1, 1, 1], [2, 2, 1]), ([3, 4, 1, 1, 1], [4, 3]), ([1, 1, 2, 3], [3, 2]),
                                             ([2, 1, 1, 3, 1, 1], [2, 3]), ([6, 1, 1], [2, 3]), ([2, 2, 1, 1], [4, 1])])
                 x = solverkit.rand_tt_float(rng, Nin, solverkit.ranks(rng, len(Nin), 3), dt, cplx=cplx)
+                x = rescale(x)
                 eps = rng.choice([1e-16, 1e-14, 1e-10, 1e-6, 1e-3, 1e-1])
                 if i in (12, 13):           # engineered: a split inside a mode that carries a rank above 100
                     eng = "high-rank split"; cplx = False; dt = torch.float64
@@ -95,6 +103,7 @@ def run(tier, seed, replay=None):
                         k = rng.randrange(d)
                         x = torchtt.TT([c * (1e4 if j == k else (1e-4 if j == (k + 1) % d else 1.0)) for j, c in enumerate(x.cores)])
                         x = x + solverkit.rand_tt_float(rng, N, [1] * (d + 1), dt, cplx=cplx)
+                    x = rescale(x)
                     ref = x.full().permute(perm); want_shape = [N[p] for p in perm]
                 else:
                     M = [rng.choice([1, 2, 3]) for _ in range(d)]
@@ -135,6 +144,7 @@ def run(tier, seed, replay=None):
                 d = rng.choice([1, 2, 3])
                 N = [rng.choice([2, 4, 8, 16]) for _ in range(d)]
                 x = solverkit.rand_tt_float(rng, N, solverkit.ranks(rng, d, 3), dt, cplx=cplx)
+                x = rescale(x)
                 eps = rng.choice([1e-12, 1e-8, 1e-4])
                 desc = {"op": kind, "N": N, "eps": eps, "dtype": str(dt)}
                 snap = history.Snap(x)
